@@ -36,6 +36,10 @@ impl NdWriter {
         self.0.write_all(b"\n")?;
         Ok(())
     }
+    pub fn flush(&mut self) -> anyhow::Result<()> {
+        self.0.flush()?;
+        Ok(())
+    }
     pub fn finish(mut self) -> anyhow::Result<()> {
         self.0.flush()?;
         Ok(())
